@@ -110,7 +110,7 @@ theorem wPrepare (n : Nat) : StopsW (Nop.wPrepare n) := by
 
 theorem wWrite (bs : Bytes) : StopsW (Nop.wWrite bs) := by
   have := prim (α := Unit) bs.length (g := fun s' =>
-    if s'.room bs.length then (.ok (), s'.acc bs) else (.error .writeLimitReached, s'))
+    if !s'.checked || s'.room bs.length then (.ok (), s'.acc bs) else (.error .writeLimitReached, s'))
     (by intro s1; split <;> rfl)
   exact this
 
@@ -303,7 +303,7 @@ theorem acc_chan (s : Snk) (a b : Bytes) (h1 h2 : HChan) :
   have := acc_acc s a b
   cases s
   simp only [Snk.acc, Snk.mk.injEq] at this ⊢
-  exact ⟨this.1, this.2.1, trivial, trivial, trivial⟩
+  exact ⟨this.1, this.2.1, trivial, trivial, trivial, trivial⟩
 
 theorem room_mono {s : Snk} {m n : Nat} (h : m ≤ n) (hr : s.room n = true) : s.room m = true := by
   unfold Snk.room at *
@@ -347,7 +347,7 @@ theorem bind {m : MW α} {f : α → MW β} {a : α} {c : β} {b1 b2 : Bytes} {h
 theorem wWrite (bs : Bytes) (h : HChan) : Emits (Nop.wWrite bs) () bs h h := by
   intro s hc hfit
   unfold Nop.wWrite
-  simp only [hfit.2.2, Bool.not_true, Bool.false_eq_true, ↓reduceIte, preW_clean hfit.1, hfit.2.1]
+  simp only [hfit.2.2, Bool.not_true, Bool.false_eq_true, ↓reduceIte, preW_clean hfit.1, hfit.2.1, Bool.or_true]
   cases s; simp_all [Snk.acc]
 
 theorem wInt (k : IntKind) (i : Int) (h : HChan) : Emits (Nop.wInt k i) () (encInt k i) h h := by
@@ -408,7 +408,7 @@ theorem framed {m : MW Unit} {vb : Bytes} {h h1 : HChan} (sz : Nat) (hm : Emits 
   simp only [Snk.acc, List.map_cons]
   unfold Nop.wPadPop
   simp only
-  have hfit2 : ({ out := s.out ++ vb, frames := s.frames.map (· - vb.length), cap := s.cap, chan := h1, fault := s.fault } : Snk).fits
+  have hfit2 : ({ out := s.out ++ vb, frames := s.frames.map (· - vb.length), cap := s.cap, checked := s.checked, chan := h1, fault := s.fault } : Snk).fits
       (List.replicate (sz - vb.length) (0 : UInt8)).length := by
     rw [List.length_replicate]
     refine ⟨hfault, ?_, ?_⟩
